@@ -1,22 +1,687 @@
-"""Property oracles evaluated on the implementation's own trace, independent of the Lean model.
-(filled in per property; see DESIGN.md §6)"""
-EXPECTED_THEOREMS = {
-    "C01": ["step_refines", "history_refines", "history_from_new", "get_by_borrowed_form", "srun_borrowed",
-            "index_panics_iff_absent", "sim_observables"],
-    "C07": ["set_step_refines", "set_history_refines", "set_history_from_new", "insert_true_iff_absent",
-            "remove_reports_presence", "sset_borrowed"],
-    "C12": ["insert_keeps_stored_key", "checked_insert_keeps_stored_key", "insert_key_value_swaps_key",
-            "insert_ii_for_full_identity", "get_exposes_stored", "remove_entry_exposes_stored",
-            "iteration_exposes_stored", "set_insert_keeps_stored", "set_replace_swaps"],
-    "C09": ["iter_start", "next_yields_kth", "next_none_at_end", "next_none_forever", "steps_from_start", "after_k_steps", "len_after_k_steps", "script_probes_report_len", "remaining_items", "traversal_yields_all", "traversal_projections", "two_traversals_agree", "clone_rest", "clone_continues_identically", "shared_iter_changes_nothing", "mut_iter_writes_prefix", "mut_iter_writes_all", "lookup_after_mut_iter", "iterOp_safe", "nextOut_shared", "nextOut_mut", "script_probe_after_j_steps", "script_clone_at_j", "script_clone_agrees"],
-    "C10": ["no_inj", "into_iter_next", "into_iter_next_nonempty", "into_iter_none_forever", "into_iter_take_pairs", "into_iter_take", "discarded_halves", "into_iter_all", "into_iter_partition", "into_iter_take_any_world", "into_iter_op_any_world", "into_iter_op", "drain_start", "drain_take", "drain_next_none_forever", "drain_always_empties", "drain_op", "drain_op_drop", "drain_op_forget", "drain_all", "drain_partition", "drain_then_insert", "consuming_ops_safe", "no_value_glue", "set_into_iter_op", "set_drain_op"],
-    "C03": ["insert_full_absent", "insert_key_value_full_absent", "checked_insert_full_absent",
-            "insert_present_on_full", "checked_insert_present_on_full", "insert_key_value_present_on_full",
-            "insert_len_le_cap"],
-}
+"""Property oracles evaluated on the implementation's own trace, independent of the Lean model
+(DESIGN.md §6).  One-step reference semantics: for every operation the pre-state of a register
+is the last snapshot the *implementation* printed for it, the oracle computes what an ideal
+dictionary / set / iterator would return and leave behind, and compares order-insensitively.
+A failure here is an input on which the real crate breaks the property (replayable).
+"""
+import re
+
+EXPECTED_THEOREMS = {}          # filled from tools/expected_theorems.json at import time
 LAST_COUNT = [0]
+
+RE_SNAP = re.compile(r"^(\d+)/(\d+)/([01])\[(.*)\]$")
+RE_ENT = re.compile(r"K(\d+)\.(\d+)(?::V(\d+)\.(-?\d+))?")
+
+
+def _load_expected():
+    import json
+    import os
+    p = os.path.join(os.path.dirname(os.path.abspath(__file__)), "expected_theorems.json")
+    if os.path.exists(p):
+        EXPECTED_THEOREMS.update(json.load(open(p)))
+
+
+_load_expected()
+
+
+def parse_snap(s):
+    m = RE_SNAP.match(s)
+    if not m:
+        return None
+    ents = []
+    body = m.group(4)
+    if body:
+        for e in body.split(","):
+            me = RE_ENT.fullmatch(e)
+            if not me:
+                return None
+            ents.append((int(me.group(1)), int(me.group(2)),
+                         int(me.group(3)) if me.group(3) is not None else None,
+                         int(me.group(4)) if me.group(4) is not None else None))
+    return {"len": int(m.group(1)), "cap": int(m.group(2)), "empty": m.group(3) == "1", "ents": ents}
+
+
+def parse_line(line):
+    left = line.split(" | ", 1)[0]
+    toks = left.split(" ")
+    out = {"outcome": toks[0], "ret": None, "snaps": {}, "ev": [], "leaks": None}
+    for t in toks[1:]:
+        if "=" not in t:
+            continue
+        a, b = t.split("=", 1)
+        if a == "ret":
+            out["ret"] = b
+        elif a == "ev":
+            out["ev"] = [] if b == "-" else b.split(",")
+        elif a == "nc":
+            out["nc"] = b
+        elif a == "leaks":
+            out["leaks"] = b
+        elif re.fullmatch(r"[ms][01]", a):
+            out["snaps"][a] = parse_snap(b)
+    return out
+
+
+def split_top(s):
+    """split a bracketed list body at top-level commas (strings in double quotes respected)."""
+    out, depth, cur, q = [], 0, "", False
+    for ch in s:
+        if ch == '"':
+            q = not q
+        if not q:
+            if ch in "[(":
+                depth += 1
+            elif ch in "])":
+                depth -= 1
+            elif ch == "," and depth == 0:
+                out.append(cur)
+                cur = ""
+                continue
+        cur += ch
+    if cur or out:
+        out.append(cur)
+    return out
+
+
+def keyarg(t):
+    c, i = t.split("#")
+    return int(c), int(i)
+
+
+def valarg(t):
+    i, v = t.split("#")
+    return int(i), int(v)
+
+
+def probe_cls(t):
+    return int(t.split(":", 1)[1].split("#")[0])
+
+
+def is_overflow(outcome):
+    return outcome in ("panic:overflow", "panic:oob")
+
+
+def find(ents, cls):
+    for e in ents:
+        if e[0] == cls:
+            return e
+    return None
+
+
+def ms(ents, ids):
+    """multiset view of entries: with or without object ids."""
+    if ids:
+        return sorted(ents, key=lambda e: tuple(-1 if x is None else x for x in e))
+    return sorted(((e[0], e[3]) for e in ents), key=lambda e: tuple(-10**9 if x is None else x for x in e))
+
+
+def show_v(e, ids):
+    return ("V%d.%d" % (e[2], e[3])) if ids else ("V%d" % e[3])
+
+
+def show_k(e, ids):
+    return ("K%d.%d" % (e[0], e[1])) if ids else ("K%d" % e[0])
+
+
+def strip_ids(s):
+    s = re.sub(r"K(\d+)\.(\d+)", lambda m: "K" + m.group(1), s)
+    s = re.sub(r"V(\d+)\.(-?\d+)", lambda m: "V" + m.group(2), s)
+    return s
+
+
+def strip_slot(s):
+    return re.sub(r"@\d+(?:\.\d+)?=", "", s)
+
+
+# which oracle families count for which property
+FAMILIES = {
+    "C01": {"struct", "dict"}, "C02": {"struct", "leak"}, "C03": {"struct", "full"}, "C04": {"struct"},
+    "C05": {"struct", "uniq", "sweep"}, "C06": set(), "C07": {"struct", "set"}, "C08": {"alg"},
+    "C09": {"iter"}, "C10": {"consume", "struct"}, "C11": {"struct", "entry"}, "C12": {"ident"},
+    "C13": {"gdm"}, "C14": {"eq"}, "C15": {"clone"}, "C16": {"bulk", "struct"}, "C17": {"struct"},
+    "C18": {"struct"}, "C19": {"fmt"}, "C20": {"serde"},
+}
+
+
+class Case:
+    def __init__(self, head):
+        self.caps = {}
+        self.lawful = True
+        for t in head.split()[2:]:
+            a, b = t.split("=")
+            if a == "eq":
+                self.lawful = (b == "lawful")
+            else:
+                self.caps[a] = int(b)
+        self.state = {r: {"len": 0, "cap": c, "empty": True, "ents": []} for r, c in self.caps.items()}
+        self.injected = False
+        self.forgot = False
+
+
+def check_struct(case, reg, snap, fam, fails):
+    if snap is None:
+        fails.append("unparsable snapshot of " + reg)
+        return
+    if snap["len"] != len(snap["ents"]):
+        fails.append("%s: len()=%d but iteration yields %d entries" % (reg, snap["len"], len(snap["ents"])))
+    if snap["len"] > snap["cap"]:
+        fails.append("%s: len()=%d exceeds capacity()=%d" % (reg, snap["len"], snap["cap"]))
+    if snap["cap"] != case.caps.get(reg, snap["cap"]):
+        fails.append("%s: capacity() changed to %d" % (reg, snap["cap"]))
+    if snap["empty"] != (snap["len"] == 0):
+        fails.append("%s: is_empty() disagrees with len()" % reg)
+    if "uniq" in fam and case.lawful:
+        cl = [e[0] for e in snap["ents"]]
+        if len(set(cl)) != len(cl):
+            fails.append("%s: iteration yields two equal keys" % reg)
+
+
+def expect_state(reg, got, want, ids, fails, what):
+    if got is None:
+        return
+    if ms(got["ents"], ids) != ms(want, ids):
+        fails.append("%s after %s: holds %s, an ideal %s holds %s" % (
+            reg, what, ms(got["ents"], ids), "container", ms(want, ids)))
+
+
+def dict_step(case, reg, toks, t, fam, ids, fails):
+    """reference semantics of the dictionary API (maps); returns True when handled."""
+    pre = case.state[reg]["ents"]
+    cap = case.caps[reg]
+    got = t["snaps"].get(reg)
+    op = toks[1]
+    ret = t["ret"]
+    oc = t["outcome"]
+    cmp_ret = (lambda a: a) if ids else strip_ids
+
+    def want_ret(w):
+        if oc != "ok":
+            fails.append("%s %s: ended %s, an ideal dictionary returns %s" % (reg, op, oc, w))
+        elif cmp_ret(strip_slot(ret)) != cmp_ret(w):
+            fails.append("%s %s: returned %s, an ideal dictionary returns %s" % (reg, op, ret, w))
+
+    if op in ("insert", "insert_key_value", "checked_insert"):
+        kc, ki = keyarg(toks[2])
+        vi, vv = valarg(toks[3])
+        old = find(pre, kc)
+        if old is not None:
+            newkey = (kc, ki) if op == "insert_key_value" else (old[0], old[1])
+            post = [(newkey[0], newkey[1], vi, vv) if e is old else e for e in pre]
+            if op == "insert":
+                want_ret("+" + show_v(old, True))
+            elif op == "insert_key_value":
+                want_ret("+%s:%s" % (show_k(old, True), show_v(old, True)))
+            else:
+                want_ret("++" + show_v(old, True))
+            expect_state(reg, got, post, ids, fails, op)
+        elif len(pre) < cap:
+            want_ret("+-" if op == "checked_insert" else "-")
+            expect_state(reg, got, pre + [(kc, ki, vi, vv)], ids, fails, op)
+        else:
+            if op == "checked_insert":
+                want_ret("-")
+            elif not is_overflow(oc):
+                fails.append("%s %s of a new key into a full container ended %s instead of panicking" % (reg, op, oc))
+            expect_state(reg, got, pre, True, fails, op + " on a full container")
+        return True
+    if op in ("get", "get_key_value", "get_mut", "contains_key", "index", "index_mut"):
+        c = probe_cls(toks[2])
+        e = find(pre, c)
+        add = int(toks[3]) if op in ("get_mut", "index_mut") else 0
+        post = [(x[0], x[1], x[2], x[3] + add) if x is e else x for x in pre]
+        if op == "contains_key":
+            want_ret("1" if e else "0")
+        elif op in ("index", "index_mut"):
+            if e is None:
+                if oc != "panic:noentry":
+                    fails.append("%s %s of a missing key ended %s instead of the no-entry panic" % (reg, op, oc))
+            else:
+                want_ret("V%d.%d" % (e[2], e[3] + add))
+        elif e is None:
+            want_ret("-")
+        elif op == "get_key_value":
+            want_ret("+%s:%s" % (show_k(e, True), show_v(e, True)))
+        else:
+            want_ret("+V%d.%d" % (e[2], e[3] + add))
+        expect_state(reg, got, post, ids, fails, op)
+        return True
+    if op in ("remove", "remove_entry"):
+        c = probe_cls(toks[2])
+        e = find(pre, c)
+        if e is None:
+            want_ret("-")
+        elif op == "remove":
+            want_ret("+" + show_v(e, True))
+        else:
+            want_ret("+%s:%s" % (show_k(e, True), show_v(e, True)))
+        expect_state(reg, got, [x for x in pre if x is not e], ids, fails, op)
+        return True
+    if op == "retain":
+        mask, bump = int(toks[2]), int(toks[3])
+        post = [(x[0], x[1], x[2], x[3] + bump) for x in pre if (mask >> x[0]) & 1]
+        if oc != "ok":
+            fails.append("%s retain ended %s" % (reg, oc))
+        expect_state(reg, got, post, ids, fails, op)
+        return True
+    if op == "clear":
+        expect_state(reg, got, [], ids, fails, op)
+        return True
+    if op in ("len", "capacity", "is_empty"):
+        w = {"len": str(len(pre)), "capacity": str(cap), "is_empty": "1" if not pre else "0"}[op]
+        want_ret(w)
+        expect_state(reg, got, pre, ids, fails, op)
+        return True
+    return False
+
+
+def set_step(case, reg, toks, t, ids, fails):
+    pre = case.state[reg]["ents"]
+    cap = case.caps[reg]
+    got = t["snaps"].get(reg)
+    op = toks[1]
+    ret = t["ret"]
+    oc = t["outcome"]
+    cmp_ret = (lambda a: a) if ids else strip_ids
+
+    def want_ret(w):
+        if oc != "ok":
+            fails.append("%s %s: ended %s, an ideal set returns %s" % (reg, op, oc, w))
+        elif cmp_ret(strip_slot(ret)) != cmp_ret(w):
+            fails.append("%s %s: returned %s, an ideal set returns %s" % (reg, op, ret, w))
+
+    if op in ("insert", "replace"):
+        kc, ki = keyarg(toks[2])
+        old = find(pre, kc)
+        if old is not None:
+            if op == "insert":
+                want_ret("0")
+                expect_state(reg, got, pre, ids, fails, op)
+            else:
+                want_ret("+" + show_k(old, True))
+                expect_state(reg, got, [(kc, ki, None, None) if e is old else e for e in pre], ids, fails, op)
+        elif len(pre) < cap:
+            want_ret("1" if op == "insert" else "-")
+            expect_state(reg, got, pre + [(kc, ki, None, None)], ids, fails, op)
+        else:
+            if not is_overflow(oc):
+                fails.append("%s %s of a new element into a full set ended %s instead of panicking" % (reg, op, oc))
+            expect_state(reg, got, pre, True, fails, op + " on a full set")
+        return True
+    if op in ("contains", "get", "remove", "take"):
+        c = probe_cls(toks[2])
+        e = find(pre, c)
+        if op in ("contains", "remove"):
+            want_ret("1" if e else "0")
+        else:
+            want_ret(("+" + show_k(e, True)) if e else "-")
+        post = pre if op in ("contains", "get") else [x for x in pre if x is not e]
+        expect_state(reg, got, post, ids, fails, op)
+        return True
+    if op == "retain":
+        mask = int(toks[2])
+        expect_state(reg, got, [x for x in pre if (mask >> x[0]) & 1], ids, fails, op)
+        return True
+    if op == "clear":
+        expect_state(reg, got, [], ids, fails, op)
+        return True
+    if op in ("len", "capacity", "is_empty"):
+        w = {"len": str(len(pre)), "capacity": str(cap), "is_empty": "1" if not pre else "0"}[op]
+        want_ret(w)
+        return True
+    return False
+
+
+def bulk_step(case, reg, toks, t, ids, fails):
+    """from_iter / extend = inserting the items one by one in order."""
+    op = toks[1]
+    isset = reg.startswith("s")
+    items = toks[3].strip("[]")
+    items = [x for x in items.split(",") if x]
+    cur = [] if op == "from_iter" else list(case.state[reg]["ents"])
+    cap = case.caps[reg]
+    overflow = False
+    for it in items:
+        if isset:
+            kc, ki = keyarg(it)
+            vi = vv = None
+        else:
+            a, b = it.split("=")
+            kc, ki = keyarg(a)
+            vi, vv = valarg(b)
+        old = find(cur, kc)
+        if old is not None:
+            cur = [(old[0], old[1], vi, vv) if e is old else e for e in cur]
+        elif len(cur) < cap:
+            cur.append((kc, ki, vi, vv))
+        else:
+            overflow = True
+            break
+    got = t["snaps"].get(reg)
+    if overflow:
+        if not is_overflow(t["outcome"]):
+            fails.append("%s %s with more distinct keys than capacity ended %s instead of panicking" % (reg, op, t["outcome"]))
+        return True
+    if t["outcome"] != "ok":
+        fails.append("%s %s ended %s although all distinct keys fit" % (reg, op, t["outcome"]))
+        return True
+    expect_state(reg, got, cur, ids, fails, op + " (= inserting one by one)")
+    if toks[2] == "1":
+        pulls = sum(1 for e in t["ev"] if e == "p")
+        if pulls != len(items) + 1:
+            fails.append("%s %s pulled the source %d times for %d items" % (reg, op, pulls, len(items)))
+    return True
+
+
+def alg_step(case, reg, toks, t, fails):
+    op = toks[1]
+    a = case.state[reg]["ents"]
+    if op in ("is_subset", "is_superset", "is_disjoint"):
+        b = case.state[toks[2]]["ents"]
+        ca, cb = {e[0] for e in a}, {e[0] for e in b}
+        w = {"is_subset": ca <= cb, "is_superset": ca >= cb, "is_disjoint": not (ca & cb)}[op]
+        if t["outcome"] == "ok" and t["ret"] != ("1" if w else "0"):
+            fails.append("%s %s %s returned %s, mathematically %s" % (reg, op, toks[2], t["ret"], w))
+        return True
+    if op == "sub":
+        b = case.state[toks[2]]["ents"]
+        dst = toks[3]
+        got = t["snaps"].get(dst)
+        cb = {e[0] for e in b}
+        want = sorted(e[0] for e in a if e[0] not in cb)
+        if t["outcome"] == "ok" and got is not None and sorted(e[0] for e in got["ents"]) != want:
+            fails.append("%s - %s gave classes %s, mathematically %s" % (reg, toks[2], sorted(e[0] for e in got["ents"]), want))
+        return True
+    if op == "alg":
+        kind, other, script = toks[2], toks[3], toks[4]
+        b = case.state[other]["ents"]
+        ca, cb = [e[0] for e in a], [e[0] for e in b]
+        want = {"union": set(ca) | set(cb), "intersection": set(ca) & set(cb),
+                "difference": set(ca) - set(cb), "symmetric_difference": set(ca) ^ set(cb)}[kind]
+        if t["outcome"] != "ok" or not t["ret"]:
+            return True
+        parts = split_top(t["ret"][1:-1])
+        yielded = []
+        pi = 0
+        ended = False
+        for ch in script:
+            if pi >= len(parts):
+                break
+            p = parts[pi]
+            if ch == "n":
+                pi += 1
+                if p == "-":
+                    ended = True
+                else:
+                    if ended:
+                        fails.append("%s %s: yields an item after returning None" % (reg, kind))
+                    m = re.match(r"\+@(\d+)\.(\d+)=K(\d+)\.(\d+)", p)
+                    if m:
+                        operand, slot, cls, kid = map(int, m.groups())
+                        yielded.append(cls)
+                        if kind in ("intersection", "difference"):
+                            if operand != 0 or not any(e[0] == cls and e[1] == kid for e in a):
+                                fails.append("%s %s: yields an element that is not the left operand's own" % (reg, kind))
+            elif ch == "h":
+                pi += 1
+                m = re.match(r"(\d+)\.\.(\d*)", p)
+                if m:
+                    lo = int(m.group(1))
+                    hi = int(m.group(2)) if m.group(2) else None
+                    remaining = len(want) - len(yielded)
+                    if not ended and (lo > remaining or (hi is not None and hi < remaining)):
+                        fails.append("%s %s: size_hint %s does not bracket the %d items still to come" % (reg, kind, p, remaining))
+            elif ch in ("c", "f"):
+                pi += 1
+                remaining = len(want) - len(yielded)
+                if ch == "c" and p.isdigit() and int(p) != remaining:
+                    fails.append("%s %s: count()=%s but %d items remain" % (reg, kind, p, remaining))
+                if ch == "f":
+                    items = [x for x in split_top(p[1:-1]) if x]
+                    cl = []
+                    for x in items:
+                        m = re.match(r"@(\d+)\.(\d+)=K(\d+)\.(\d+)", x)
+                        if m:
+                            cl.append(int(m.group(3)))
+                    if sorted(cl + yielded) != sorted(want):
+                        fails.append("%s %s: fold visits %s after next yielded %s; the result is %s" % (reg, kind, cl, yielded, sorted(want)))
+                    yielded += cl
+                break
+            elif ch in ("d", "D"):
+                pi += 1
+            elif ch == "x":
+                pass
+            elif ch == "l":
+                pass
+        if len(set(yielded)) != len(yielded):
+            fails.append("%s %s: an element is yielded twice: %s" % (reg, kind, yielded))
+        if not set(yielded) <= want:
+            fails.append("%s %s: yields %s, the mathematical result is %s" % (reg, kind, yielded, sorted(want)))
+        if ended and set(yielded) != want and "c" not in script and "f" not in script:
+            fails.append("%s %s: ended after %s, the mathematical result is %s" % (reg, kind, yielded, sorted(want)))
+        # operands unchanged
+        for r2, pre in ((reg, a), (other, b)):
+            g = t["snaps"].get(r2)
+            if g is not None and g["ents"] != pre:
+                fails.append("%s %s: operand %s changed" % (reg, kind, r2))
+        return True
+    return False
+
+
+def eq_step(case, reg, toks, t, fails):
+    a = case.state[reg]["ents"]
+    b = case.state[toks[2]]["ents"]
+    w = sorted((e[0], e[3]) for e in a) == sorted((e[0], e[3]) for e in b)
+    if t["outcome"] == "ok" and t["ret"] != ("1" if w else "0"):
+        fails.append("%s == %s returned %s; same keys with equal values: %s" % (reg, toks[2], t["ret"], w))
+    for r2, pre in ((reg, a), (toks[2], b)):
+        g = t["snaps"].get(r2)
+        if g is not None and g["ents"] != pre:
+            fails.append("comparison changed operand %s" % r2)
+    return True
+
+
+def clone_step(case, reg, toks, t, fails):
+    src = case.state[reg]["ents"]
+    dst = toks[2]
+    g = t["snaps"].get(dst)
+    if t["outcome"] != "ok" or g is None:
+        return True
+    if [(e[0], e[3]) for e in g["ents"]] != [(e[0], e[3]) for e in src]:
+        fails.append("clone of %s holds %s, the original holds %s" % (reg, g["ents"], src))
+    ck = sum(1 for e in t["ev"] if e.startswith("ck"))
+    cv = sum(1 for e in t["ev"] if e.startswith("cv"))
+    wantv = len(src) if reg.startswith("m") else 0
+    if ck != len(src) or cv != wantv:
+        fails.append("clone of %s made %d key clones and %d value clones for %d entries" % (reg, ck, cv, len(src)))
+    ids_src = {e[1] for e in src} | {e[2] for e in src if e[2] is not None}
+    ids_dst = {e[1] for e in g["ents"]} | {e[2] for e in g["ents"] if e[2] is not None}
+    if ids_src & ids_dst:
+        fails.append("clone of %s shares objects with the original" % reg)
+    gs = t["snaps"].get(reg)
+    if gs is not None and gs["ents"] != src and reg != dst:
+        fails.append("cloning changed the original %s" % reg)
+    return True
+
+
+def consume_step(case, reg, toks, t, fails):
+    op = toks[1]
+    pre = case.state[reg]["ents"]
+    isset = reg.startswith("s")
+    if op == "drain":
+        take = int(toks[2])
+    else:
+        take = int(toks[2]) if isset else int(toks[3])
+    if t["outcome"] != "ok" or not t["ret"]:
+        return True
+    parts = split_top(t["ret"][1:-1])
+    items = [x for x in split_top(parts[0][1:-1]) if x]
+    remaining = int(parts[1])
+    n = min(take, len(pre))
+    kind = "pairs" if (op == "drain" or isset) else toks[2]
+
+    def show(e):
+        if isset or kind == "keys":
+            return "K%d.%d" % (e[0], e[1])
+        if kind == "values":
+            return "V%d.%d" % (e[2], e[3])
+        return "K%d.%d:V%d.%d" % e
+    want = [show(e) for e in (pre[:n] if op == "drain" else list(reversed(pre))[:n])]
+    if sorted(items) != sorted(want) or len(set(items)) != len(items):
+        fails.append("%s %s yielded %s; it held %s" % (reg, op, items, [show(e) for e in pre]))
+    if remaining != len(pre) - n:
+        fails.append("%s %s: len() after %d items is %d, %d remain" % (reg, op, n, remaining, len(pre) - n))
+    g = t["snaps"].get(reg)
+    if g is not None and (g["len"] != 0 or g["ents"]):
+        fails.append("%s is not empty after %s: %s" % (reg, op, g["ents"]))
+    return True
+
+
+def iter_step(case, reg, toks, t, fails):
+    pre = case.state[reg]["ents"]
+    isset = reg.startswith("s")
+    if isset:
+        kind, add, script = "keys", 0, toks[2]
+    else:
+        kind, add, script = toks[2], int(toks[3]), toks[4]
+    if t["outcome"] != "ok" or not t["ret"]:
+        fails.append("%s iter ended %s" % (reg, t["outcome"]))
+        return True
+    parts = split_top(t["ret"][1:-1])
+    pos = 0
+    pi = 0
+    mut = kind in ("iter_mut", "values_mut")
+    for ch in script:
+        if pi >= len(parts):
+            break
+        p = parts[pi]
+        rem = len(pre) - min(pos, len(pre))
+        if ch == "n":
+            pi += 1
+            if pos < len(pre):
+                e = pre[pos]
+                val = (e[3] + add) if (mut and e[3] is not None) else e[3]
+                if kind in ("iter", "iter_mut"):
+                    w = "+@%d=K%d.%d:V%d.%d" % (pos, e[0], e[1], e[2], val)
+                elif kind == "keys":
+                    w = "+@%d=K%d.%d" % (pos, e[0], e[1])
+                else:
+                    w = "+@%d=V%d.%d" % (pos, e[2], val)
+                if p != w:
+                    fails.append("%s %s: step %d yielded %s, the entry there is %s" % (reg, kind, pos, p, w))
+            elif p != "-":
+                fails.append("%s %s: yielded %s after the end" % (reg, kind, p))
+            pos += 1
+        elif ch == "l":
+            pi += 1
+            if p.isdigit() and int(p) != rem:
+                fails.append("%s %s: len()=%s with %d items to come" % (reg, kind, p, rem))
+        elif ch == "h":
+            pi += 1
+            if p != "%d..%d" % (rem, rem):
+                fails.append("%s %s: size_hint %s with %d items to come" % (reg, kind, p, rem))
+        elif ch in ("c", "f"):
+            pi += 1
+            if p.isdigit() and int(p) != rem:
+                fails.append("%s %s: count()=%s with %d items to come" % (reg, kind, p, rem))
+            break
+        elif ch in ("d", "D"):
+            pi += 1
+        elif ch == "x":
+            pass
+    g = t["snaps"].get(reg)
+    if g is not None:
+        n = min(pos, len(pre))
+        want = [(e[0], e[1], e[2], (e[3] + add) if (mut and i < n and e[3] is not None) else e[3]) for i, e in enumerate(pre)]
+        if g["ents"] != want:
+            fails.append("%s after %s: holds %s, expected %s" % (reg, kind, g["ents"], want))
+    return True
 
 
 def run(prop, ops_path, impl_path, profile):
+    """-> list of failures: dict(case, op, what, impl, case_lines)"""
+    import compare
     LAST_COUNT[0] = 0
-    return []
+    fam = FAMILIES.get(prop, set())
+    if not fam:
+        return []
+    ids = prop in ("C02", "C12", "C03", "C10", "C15", "C16")
+    cases = compare.load_cases(ops_path)
+    impl = [l.rstrip("\n") for l in open(impl_path)]
+    fails_all = []
+    idx = 0
+    for c in cases:
+        n = len(c["traced"])
+        il = impl[idx:idx + n]
+        idx += n
+        if len(il) < n or not c["traced"][0].startswith("case "):
+            continue
+        case = Case(c["traced"][0])
+        first = None
+        for j in range(1, n):
+            opl = c["traced"][j]
+            t = parse_line(il[j])
+            toks = opl.split()
+            fails = []
+            if toks[0] == "inject":
+                case.injected = True
+                continue
+            if toks[0] == "end":
+                if "leak" in fam and not case.injected and not case.forgot and t["leaks"] not in (None, "-"):
+                    fails.append("objects never destroyed although nothing was forgotten: " + t["leaks"])
+                if fails and first is None:
+                    first = (j, opl, fails[0], il[j])
+                continue
+            reg = toks[0]
+            if not re.fullmatch(r"[ms][01]", reg) or len(toks) < 2:
+                continue
+            op = toks[1]
+            LAST_COUNT[0] += 1
+            if "forget" in opl:
+                case.forgot = True
+            if "struct" in fam:
+                for r2, sn in t["snaps"].items():
+                    check_struct(case, r2, sn, fam, fails)
+            faulted = t["outcome"] == "panic:inject"
+            if case.lawful and not faulted and all(v is not None for v in t["snaps"].values()):
+                try:
+                    if reg.startswith("m"):
+                        if "dict" in fam:
+                            dict_step(case, reg, toks, t, fam, False, fails)
+                        if "ident" in fam and op in ("insert", "insert_key_value", "checked_insert", "get_key_value",
+                                                     "remove_entry", "remove", "get"):
+                            dict_step(case, reg, toks, t, fam, True, fails)
+                        if "full" in fam and op in ("insert", "insert_key_value", "checked_insert"):
+                            dict_step(case, reg, toks, t, fam, True, fails)
+                    else:
+                        if "set" in fam:
+                            set_step(case, reg, toks, t, False, fails)
+                        if "ident" in fam and op in ("insert", "replace", "get", "take"):
+                            set_step(case, reg, toks, t, True, fails)
+                        if "full" in fam and op in ("insert", "replace"):
+                            set_step(case, reg, toks, t, True, fails)
+                    if "bulk" in fam and op in ("from_iter", "extend"):
+                        bulk_step(case, reg, toks, t, True, fails)
+                    if "alg" in fam and op in ("alg", "is_subset", "is_superset", "is_disjoint", "sub"):
+                        alg_step(case, reg, toks, t, fails)
+                    if "eq" in fam and op == "eq":
+                        eq_step(case, reg, toks, t, fails)
+                    if "clone" in fam and op == "clone":
+                        clone_step(case, reg, toks, t, fails)
+                    if "consume" in fam and op in ("drain", "into_iter"):
+                        consume_step(case, reg, toks, t, fails)
+                    if "iter" in fam and op == "iter":
+                        iter_step(case, reg, toks, t, fails)
+                except (ValueError, IndexError, KeyError) as ex:       # an oracle bug must not look like a finding
+                    fails = [f for f in fails if not f.startswith("oracle-error")]
+                    fails.append("oracle-error: %r on %s" % (ex, opl))
+            # the pre-state of the next operation is what the implementation now shows
+            for r2, sn in t["snaps"].items():
+                if sn is not None:
+                    case.state[r2] = sn
+            real = [f for f in fails if not f.startswith("oracle-error")]
+            if real and first is None:
+                first = (j, opl, real[0], il[j])
+        if first:
+            fails_all.append({"case": c["name"], "line": first[0], "op": first[1], "what": first[2],
+                              "impl": first[3], "case_lines": c["lines"]})
+    return fails_all
